@@ -44,10 +44,6 @@ Proof.
   destruct (Nat.eqb (n_lab n) l) eqn:Eq; [apply Nat.eqb_eq; exact Eq | exact IH].
 Qed.
 
-(* the pairs (node, node executed next) of the nodes strictly between two positions *)
-Fixpoint steps (mid : list label) (k : label) : list (label * label) :=
-  match mid with [] => [] | m :: r => (m, hd k r) :: steps r k end.
-
 Lemma steps_in mid k m : In m mid -> exists nx, In (m, nx) (steps mid k).
 Proof.
   induction mid as [|a r IH]; simpl; [contradiction|]. intros [->|H].
@@ -108,7 +104,7 @@ Section LvReflect.
     - intros n m x Hin Rm Im. specialize (He (n, m) (I _ Hin)). simpl in He. unfold lR in Rm.
       rewrite Rm in He. simpl in He. rewrite forallb_forall in He. apply He. apply memn_In. exact Im.
     - intros n x Rn G. unfold lR in Rn. apply memn_In in Rn. specialize (Hn n Rn).
-      unfold lv_sound_node in Hn.
+      unfold lv_sound_node, lv_gen_node in Hn.
       apply andb_true_iff in Hn; destruct Hn as [Hn _]. apply andb_true_iff in Hn; destruct Hn as [Hn H3].
       apply andb_true_iff in Hn; destruct Hn as [H1 H2].
       rewrite forallb_forall in H1, H2. unfold lin. destruct G as [G|[G|[-> G]]].
@@ -239,3 +235,122 @@ Section FnReflect.
     apply memn_In. apply H. exact Hd.
   Qed.
 End FnReflect.
+
+(* ------------------------------------------------------------------------------------------ *)
+(* Edge-sensitive (unguarded) versions: valid for an implementation that treats the for header
+   edge-sensitively (fixes/C07-for-header-edge-sensitive.diff); the checks fail on the unrepaired one. *)
+
+Lemma dyn_kill_dynw A (nd : label -> node A) m nx x : dyn_kill (nd m) nx x = true -> dynw A nd m nx x.
+Proof.
+  unfold dyn_kill, dynw. intros H. apply orb_true_iff in H. destruct H as [H|H].
+  - apply orb_true_iff in H. destruct H as [H|H]; apply memn_In in H; auto.
+  - apply andb_true_iff in H. destruct H as [H1 H2]. apply memn_In in H1. apply Nat.eqb_eq in H2. auto.
+Qed.
+
+Section LvReflectE.
+  Variables (E : list edge) (ns : list lnode) (R : list label) (nl : bool).
+  Let nd := find_node ns.
+  Definition lkille (n m : label) (x : name) : Prop := dyn_kill (nd n) m x = true.
+
+  Lemma lv_sound_e_reflect E' :
+    lv_sound_e E ns nl R = true -> incl E' E ->
+    bwd_solution_e name E' (lR R) (lgen ns nl) lkille (lin ns) (lout ns) /\ (forall a, In (a, EXIT) E' -> lR R a).
+  Proof.
+    unfold lv_sound_e. intros H I.
+    apply andb_true_iff in H; destruct H as [H Hn]. apply andb_true_iff in H; destruct H as [H He].
+    apply andb_true_iff in H; destruct H as [H Hx]. apply andb_true_iff in H; destruct H as [Hc H0].
+    unfold closed_bwd in Hc. unfold lv_sound_e_edges in He. rewrite forallb_forall in Hc, Hx, He, Hn.
+    split; [constructor|].
+    - intros n m Hin Rm. specialize (Hc (n, m) (I _ Hin)). simpl in Hc. unfold lR in *.
+      rewrite Rm in Hc. simpl in Hc. exact Hc.
+    - intros n m x Hin Rm Im. specialize (He (n, m) (I _ Hin)). simpl in He. unfold lR in Rm.
+      rewrite Rm in He. simpl in He. rewrite forallb_forall in He. apply memn_In in Im. specialize (He x Im).
+      apply andb_true_iff in He. destruct He as [He _]. exact He.
+    - intros n x Rn G. unfold lR in Rn. apply memn_In in Rn. specialize (Hn n Rn).
+      unfold lv_gen_node in Hn.
+      apply andb_true_iff in Hn; destruct Hn as [Hn H3]. apply andb_true_iff in Hn; destruct Hn as [H1 H2].
+      rewrite forallb_forall in H1, H2. unfold lin. destruct G as [G|[G|[-> G]]].
+      + apply H1. exact G.
+      + apply H2. exact G.
+      + simpl in H3. rewrite forallb_forall in H3. apply H3. exact G.
+    - intros n m x Hin Rm Im NK. specialize (He (n, m) (I _ Hin)). simpl in He. unfold lR in Rm.
+      rewrite Rm in He. simpl in He. rewrite forallb_forall in He. apply memn_In in Im. specialize (He x Im).
+      apply andb_true_iff in He. destruct He as [_ He]. apply orb_true_iff in He.
+      destruct He as [He|He]; [elim NK; exact He | exact He].
+    - intros a Ha. apply Hx. apply in_exits. apply I. exact Ha.
+  Qed.
+End LvReflectE.
+
+Theorem liveness_sound_events_edge_thm (E : list edge) (ns : list lnode) (nl : bool) (f : fn) :
+  incl_edges (cfg_fn f) E = true -> lv_sound_e E ns nl (reach_bwd E) = true ->
+  forall n d tr o d', exec_fn n f d = (tr, o, d') -> o <> OFuel -> top_ok f = true -> guard_block (f_body f) = true ->
+  normal_end o ->
+  forall pre s mid k post x, tr = pre ++ s :: mid ++ k :: post ->
+    lgen ns nl k x ->
+    (forall m nx, In (m, nx) (steps mid k) -> ~ dynw name (find_node ns) m nx x) ->
+    memn x (n_out (find_node ns s)) = true /\ memn x (n_in (find_node ns (hd k mid))) = true.
+Proof.
+  intros I S n d tr o d' H Ho T G N pre s mid k post x Etr Gk NW.
+  destruct (lv_sound_e_reflect E ns (reach_bwd E) nl (cfg_fn f) S (incl_edges_incl _ _ I)) as [B X].
+  apply (liveness_sound_exec_e name (lgen ns nl) (lkille ns) (lin ns) (lout ns) (lR (reach_bwd E))
+           n f d tr o d' H Ho T G B N X pre s mid k post x Etr Gk).
+  intros m nx Hs K. apply (NW m nx Hs). apply dyn_kill_dynw. exact K.
+Qed.
+
+Section RdReflectE.
+  Variables (E : list edge) (ns : list rnode) (R : list label) (entry : label).
+  Let nd := find_node ns.
+  (* the instance of n that is followed by m binds fst a, and a is that definition *)
+  Definition rgene (n m : label) (a : ditem) : Prop :=
+    snd a = n /\ (In (fst a) (n_writes (nd n)) \/ (In (fst a) (n_ftarget (nd n)) /\ n_body (nd n) = m)).
+  Definition rkille (n m : label) (a : ditem) : Prop := dyn_kill (nd n) m (fst a) = true.
+
+  Lemma rd_sound_e_reflect E' :
+    rd_sound_e E ns entry R = true -> incl E' E ->
+    fwd_solution_e ditem E' (rR R) rgene rkille (rin ns) /\ rR R entry.
+  Proof.
+    unfold rd_sound_e. intros H I.
+    apply andb_true_iff in H; destruct H as [H He]. apply andb_true_iff in H; destruct H as [H Hne].
+    apply andb_true_iff in H; destruct H as [Hc Hent].
+    unfold closed_fwd in Hc. unfold rd_sound_e_edges in He. rewrite forallb_forall in Hc, Hne, He.
+    assert (NE : forall n m, In (n, m) E -> n <> EXIT).
+    { intros n m Hin. specialize (Hne _ Hin). simpl in Hne. apply negb_true_iff in Hne.
+      apply Nat.eqb_neq in Hne. exact Hne. }
+    split; [constructor | right; exact Hent].
+    - intros n m Hin [Rn|Rn]; [elim (NE n m (I _ Hin) Rn)|].
+      specialize (Hc (n, m) (I _ Hin)). simpl in Hc. rewrite Rn in Hc. simpl in Hc.
+      destruct (Nat.eqb m EXIT) eqn:Em; [left; apply Nat.eqb_eq; exact Em | right; exact Hc].
+    - intros n m a Hin [Rn|Rn] [G1 G2]; [elim (NE n m (I _ Hin) Rn)|].
+      specialize (He (n, m) (I _ Hin)). simpl in He. rewrite Rn in He. simpl in He.
+      destruct (Nat.eqb m EXIT) eqn:Em; [left; apply Nat.eqb_eq; exact Em|]. simpl in He.
+      apply andb_true_iff in He. destruct He as [He _]. rewrite forallb_forall in He. right.
+      destruct a as [x l]. simpl in *. subst l. apply He. apply in_or_app. destruct G2 as [G2|[G2 G3]].
+      + left. exact G2.
+      + right. fold nd. rewrite G3. rewrite Nat.eqb_refl. exact G2.
+    - intros n m a Hin [Rn|Rn] Ia NK; [elim (NE n m (I _ Hin) Rn)|].
+      destruct Ia as [Ia|Ia]; [elim (NE n m (I _ Hin) Ia)|].
+      specialize (He (n, m) (I _ Hin)). simpl in He. rewrite Rn in He. simpl in He.
+      destruct (Nat.eqb m EXIT) eqn:Em; [left; apply Nat.eqb_eq; exact Em|]. simpl in He.
+      apply andb_true_iff in He. destruct He as [_ He]. rewrite forallb_forall in He. right.
+      apply memd_In in Ia. specialize (He _ Ia). apply orb_true_iff in He.
+      destruct He as [He|He]; [elim NK; exact He | exact He].
+  Qed.
+End RdReflectE.
+
+Theorem reachdef_sound_events_edge_thm (E : list edge) (ns : list rnode) (f : fn) :
+  incl_edges (cfg_fn f) E = true -> rd_sound_e E ns (f_args f) (reach_fwd E (f_args f)) = true ->
+  forall n d tr o d', exec_fn n f d = (tr, o, d') -> o <> OFuel -> top_ok f = true -> guard_block (f_body f) = true ->
+  forall pre w mid r post x, tr = pre ++ w :: mid ++ r :: post -> r <> EXIT ->
+    (In x (n_writes (find_node ns w)) \/ (In x (n_ftarget (find_node ns w)) /\ n_body (find_node ns w) = hd r mid)) ->
+    (forall m nx, In (m, nx) (steps mid r) -> ~ dynw ditem (find_node ns) m nx x) ->
+    memd (x, w) (n_in (find_node ns r)) = true.
+Proof.
+  intros I S n d tr o d' H Ho T G pre w mid r post x Etr Hr Gw NW.
+  destruct (rd_sound_e_reflect E ns (reach_fwd E (f_args f)) (f_args f) (cfg_fn f) S (incl_edges_incl _ _ I)) as [B X].
+  assert (P : rin ns r (x, w)).
+  { apply (reachdef_sound_exec_e ditem (rgene ns) (rkille ns) (rin ns) (rR (reach_fwd E (f_args f)))
+             n f d tr o d' H Ho T G B X pre w mid r post (x, w) Etr).
+    - split; [reflexivity | exact Gw].
+    - intros m nx Hs K. apply (NW m nx Hs). apply (dyn_kill_dynw ditem (find_node ns)). exact K. }
+  destruct P as [P|P]; [elim Hr; exact P | exact P].
+Qed.
